@@ -552,6 +552,13 @@ func init() {
 			}(i)
 		}
 		wg.Wait()
+		// REQ is the one protocol whose blocked calls share state (a context's request): a Recv deadline expiring
+		// while a Send on the same context is still waiting for a pipe
+		for _, busy := range []bool{false, true} {
+			runReqCrossDeadline(c, 150, 40, busy)
+			runReqCrossDeadline(c, 40, 150, busy)
+			runReqCrossDeadline(c, 0, 40, busy)
+		}
 		skipped := map[string]int{}
 		for _, r := range results {
 			sc := r.scn
